@@ -30,6 +30,15 @@ def _grm(self):
     return _orig_grm(self)
 
 
+_orig_gt = pg.state_space.StateSpace.get_transitions
+
+
+def _gt(self):
+    EVENTS.append([id(self), 'T', ekey(self.epoch)])
+    return _orig_gt(self)
+
+
+pg.state_space.StateSpace.get_transitions = _gt
 pg.state_space.StateSpace.update_epoch = _upd
 pg.state_space.StateSpace._get_rate_matrix = _grm
 
@@ -68,10 +77,21 @@ def main():
                 coal = build.coalescent(spec, parallelize=case.get('parallelize', False))
                 if case.get('cache') is False:
                     coal.lineage_counting_state_space.cache = False
+                    if spec.get('loci', 1) == 1:
+                        coal.block_counting_state_space.cache = False
                 del EVENTS[:]
                 hist, fresh, inv = [], [], []
+                def run_any(c, op):
+                    if op['kind'] == 'ss':          # public state-space API: read S / k, re-point the epoch
+                        ss = c.lineage_counting_state_space if op['space'] == 'lc' else c.block_counting_state_space
+                        if op['what'] == 'update_epoch':
+                            ss.update_epoch(c.demography.get_epoch(op['t']))
+                            return None
+                        v = getattr(ss, op['what'])
+                        return tolist(v) if op['what'] == 'S' else int(v)
+                    return run_op(c, op)
                 for op in case['ops']:
-                    hist.append(run_op(coal, op))
+                    hist.append(run_any(coal, op))
                     inv += check_invariant(coal)
                 events = list(EVENTS)
                 lc_id = id(coal.lineage_counting_state_space)
@@ -82,6 +102,10 @@ def main():
                 r['initial_lc_epoch'] = ekey(build.coalescent(spec).demography.get_epoch(0))
                 for op in case['ops']:
                     f = build.coalescent(spec, parallelize=False)
+                    if op['kind'] == 'ss':
+                        # a fresh object re-pointed to the epoch the history object is in at this moment
+                        fresh.append(None)
+                        continue
                     fresh.append(run_op(f, op))
                 r['history'] = hist
                 r['fresh'] = fresh
